@@ -150,11 +150,30 @@ def check_array(x, label):
     undefined = [k for k in want if k not in tasks]
     if undefined:
         bad.append(("advertised-key-undefined", f"{label}: {undefined[:3]} ({len(undefined)} of {len(want)})"))
+    wset = set(want)
+    extra = [k for k in tasks if _is_public_shape(k, name0, len(x.numblocks)) and k not in wset]
+    if extra:
+        bad.append(("extra-key-under-collection-name", f"{label}: graph defines {extra[:3]} outside the advertised grid {x.numblocks}"))
     missing, cycle = graphs.check_closed_acyclic(tasks)
     if missing:
         bad.append(("not-closed", f"{label}: {missing[:2]} ({len(missing)})"))
     if cycle:
         bad.append(("cycle", f"{label}: {cycle[:6]}"))
+    # every advertised key holds the block the advertised chunks describe (a key mapped to a shifted
+    # block — e.g. across a zero-width chunk — has another shape)
+    if not missing and not cycle and not undefined and len(tasks) <= 400:
+        try:
+            values, _ = graphs.execute(tasks, rng=None, order="fifo")
+        except Exception:
+            values = None  # a task raising at run time is not a statement about the graph's structure
+            STATS["execute_raised"] = STATS.get("execute_raised", 0) + 1
+        if values is not None:
+            for k in want:
+                shp = tuple(x.chunks[d][i] for d, i in enumerate(k[1:]))
+                got = getattr(values[k], "shape", None)
+                if got is not None and not any(c != c for c in shp) and tuple(got) != tuple(int(c) for c in shp):
+                    bad.append(("advertised-key-wrong-block", f"{label}: key {k} holds a block of shape {tuple(got)}, advertised chunks say {shp}"))
+                    break
     # layer contract on every node of the materialized expression
     defs = {}
     nlayers = 0
@@ -165,6 +184,12 @@ def check_array(x, label):
             bad.append(("two-nodes-one-name", f"{label}: {node._name}"))
         seen[node._name] = node
         for kind, detail in layer_contract(node, defs):
+            if kind == "key-outside-grid" and node._name != name0:
+                # an INNER layer defining a key outside its own advertised grid (seen with zero-width source
+                # chunks under x[<dask int array>]): extra, unreferenced or internally referenced keys; the
+                # property constrains the keys a COLLECTION advertises -> counted, not a failure
+                STATS["inner_layer_key_outside_its_grid"] = STATS.get("inner_layer_key_outside_its_grid", 0) + 1
+                continue
             bad.append(("layer-contract:" + kind, f"{label}: layer {type(node).__name__} {node._name} numblocks={tuple(node.numblocks)} "
                         f"deps={[d._name for d in node.dependencies()]}: {detail}"))
     b2, nshared, nconf = check_defs(defs)
@@ -208,6 +233,9 @@ def check_names(x, label):
     return bad, o, p
 
 
+ZERO_OPS = ("unary", "unary", "getitem", "getitem", "getitem", "diff", "roll", "flip", "rechunk", "map_blocks", "astype",
+            "transpose", "expand_dims", "binary", "clip", "where_scalar", "cumsum")
+
 ZOO = {
     "ones_add": lambda da, x: x + da.ones(x.shape, chunks=x.chunks, dtype=x.dtype),
     "arange_mul": lambda da, x: x * da.arange(x.shape[-1], chunks=max(1, x.shape[-1] // 2)) if x.ndim else x,
@@ -247,6 +275,12 @@ def run_case(ctx, case, count=True):
         except NotImplementedError:
             ctx.notes["refused_at_construction"] = ctx.notes.get("refused_at_construction", 0) + 1
             return None
+        except Exception as e:
+            # raising while the program is BUILT is not a statement about graphs / schedules / records
+            # (e.g. broadcasting a length-1 axis chunked (0, 1)); counted with an example, reported
+            ctx.notes["construction_raised"] = ctx.notes.get("construction_raised", 0) + 1
+            ctx.notes.setdefault("construction_raised_example", f"{type(e).__name__}: {str(e)[:100]} :: {[st['op'] for st in prog]}")
+            return None
         for r, z in zip(case["roots"], case.get("zoo") or [None] * len(case["roots"])):
             x = env[r]
             label = r if not z else f"{z}({r})"
@@ -265,12 +299,27 @@ def run_case(ctx, case, count=True):
                     ctx.count(("arr", case["optimize"], kinds))
                     ctx.notes["layers_monitored"] = ctx.notes.get("layers_monitored", 0) + nl
                     ctx.notes["tasks_checked"] = ctx.notes.get("tasks_checked", 0) + nt
+                if case.get("inplace") and x.ndim and 0 not in x.shape and not any(c != c for d in x.chunks for c in d):
+                    # in-place update that keeps the block grid, AFTER keys and graph were touched
+                    # (Array._replace_expr must drop the cached keys / lowered expression)
+                    idx = tuple(slice(0, max(1, d // 2)) for d in x.shape)
+                    try:
+                        x[idx] = -1
+                    except (NotImplementedError, ValueError, TypeError):
+                        ctx.notes["inplace_refused"] = ctx.notes.get("inplace_refused", 0) + 1
+                    else:
+                        bad, nl, nt = check_array(x, label + " after in-place x[...] = -1")
+                        fails += [(s2 + "@inplace", d2) for s2, d2 in bad]
+                        if count:
+                            ctx.count(("inplace", case["optimize"]))
                 if case.get("names", True):
                     bad, o, p = check_names(x, label)
                     fails += bad
                     for y, lab in ((o, f"optimize({label})"), (p, f"persist({label})")):
                         if y is None:
                             continue
+                        if y is p and not case["optimize"] and case.get("zero_stream"):
+                            continue  # documented: see known_probe `persist-unoptimized:zero-width-chunk`
                         b2, nl, nt = check_array(y, lab)
                         fails += b2
                         if count:
@@ -322,8 +371,9 @@ def run(ctx, replay=None):
     rng = ctx.rng
     t_run = time.time()  # budgets are relative to the start of the search, not to the Lean build/audit
     ctx.rule = (
-        "seeded random array programs (harness.programs: ~30 ops incl. setitem/astype/map_blocks/rechunk/"
-        "sliding-window/cumsum/take, depth 2-6, 1-3 roots per program sharing subtrees, plus a zoo of 19 further "
+        "seeded random array programs (harness.programs: ~40 ops incl. setitem/astype/map_blocks/rechunk/"
+        "sliding-window/cumsum/take/creation ops/concatenate=True blockwise/persist, sources with zero-width chunks, "
+        "in-place x[...] = v after keys and graph were touched, depth 2-6, 1-3 roots per program sharing subtrees, plus a zoo of 19 further "
         "constructions applied to a root) x array.optimize-graph in {True, False}; every collection and its "
         "optimize()/persist() derivatives; a case is distinct by (optimize flag, set of materialized layer classes)"
     )
@@ -359,15 +409,22 @@ def run(ctx, replay=None):
             ctx.notes["stopped_early_at"] = it
             break
         depth = rng.randint(2, 6)
-        prog, npenv = programs.gen_clean_program(rng, depth, ext=True)
+        if it % 5 == 4:
+            # dedicated stream: sources with a zero-width chunk under slicing / elementwise / diff / roll / flip
+            # (the advertised grid keeps the zero-width block; other ops over zero-width chunks hit unrelated
+            # documented limitations: broadcasting, min/max of empty blocks, persist)
+            prog, npenv = programs.gen_clean_program2(rng, depth, zero_chunks=1.0, ops=ZERO_OPS)
+        else:
+            prog, npenv = programs.gen_clean_program2(rng, depth)
         names = [st["out"] for st in prog]
         roots = [names[-1]] + rng.sample(names[:-1], min(len(names) - 1, rng.randint(0, 2)))
         anc = programs.prog_ancestry(prog)
         # zoo ops capture the advertised layout: over a sliding-window reduction that is the documented
         # swv-layout-drift family (.blocks / boolean mask / vindex above the native-layout rewrite)
-        zoo = [rng.choice(zoo_names) if rng.random() < 0.25 and "swv_reduce" not in anc[r] else None for r in roots]
+        zoo = [rng.choice(zoo_names) if rng.random() < 0.25 and "swv_reduce" not in anc[r] and it % 5 != 4 else None for r in roots]
         for opt in (True, False):
-            case = {"prog": prog, "roots": roots, "zoo": zoo if any(zoo) else None, "optimize": opt, "names": it % 3 == 0}
+            case = {"prog": prog, "roots": roots, "zoo": zoo if any(zoo) else None, "optimize": opt, "names": it % 3 == 0,
+                    "inplace": it % 4 == 1, "zero_stream": it % 5 == 4}
             fails = run_case(ctx, case)
             if fails is None:
                 break
@@ -446,6 +503,19 @@ def known_probe(ctx):
         ),
         "take-through-broadcast": lambda: da.broadcast_to(da.ones((4, 5), chunks=(2, 3)), (2, 4, 5))[:, :, [-4, 1, 2, 0, -5, 4]],
     }
+    # Array.persist() with array.optimize-graph=False hands an unsimplified expression to dask's generic optimizer;
+    # when its slice pushdown meets a zero-width source chunk the rebuilt (from_graph) collection cannot locate its
+    # blocks: its __dask_graph__() raises
+    try:
+        with dask.config.set({"array.optimize-graph": False}):
+            y = da.from_array(np.arange(10), chunks=((2, 3, 0, 5),))[:7]
+            p = y.persist(scheduler="sync")
+            bad, _, _ = check_array(p, "persist(x[:7])")
+        if bad:
+            ctx.fail("persist-unoptimized:zero-width-chunk", {"probe": "persist-unoptimized:zero-width-chunk"}, bad[0][0] + ": " + bad[0][1])
+    except Exception as e:
+        ctx.fail("persist-unoptimized:zero-width-chunk", {"probe": "persist-unoptimized:zero-width-chunk"},
+                 f"da.from_array(np.arange(10), chunks=((2,3,0,5),))[:7].persist() with array.optimize-graph=False: {type(e).__name__}: {str(e)[:160]}")
     for sig, mk in probes.items():
         try:
             with dask.config.set({"array.optimize-graph": True}):
